@@ -47,6 +47,8 @@ pub trait L: Clone + PartialEq + Eq + Ord + Hash + Display + LowerHex + Binary +
     fn is_neg_unate_(&self, i: usize) -> bool;
     fn to_hex_(&self) -> String;
     fn to_bin_(&self) -> String;
+    /// the same function after a conversion to the other type and back
+    fn via_other_(&self) -> Self;
 
     /// every syntactic form of NOT: (form name, result)
     fn not_forms(a: &Self) -> Vec<(&'static str, Box<dyn Fn(&Self) -> Self>)>;
@@ -263,6 +265,29 @@ impl L for Lut {
     fn npn_canon_(&self) -> (Self, Vec<u8>, u32) {
         self.npn_canonization()
     }
+    fn via_other_(&self) -> Self {
+        macro_rules! via {
+            ($t:ty) => {
+                Lut::from(<$t>::try_from(self.clone()).unwrap())
+            };
+        }
+        match self.num_vars() {
+            0 => via!(volute::Lut0),
+            1 => via!(volute::Lut1),
+            2 => via!(volute::Lut2),
+            3 => via!(volute::Lut3),
+            4 => via!(volute::Lut4),
+            5 => via!(volute::Lut5),
+            6 => via!(volute::Lut6),
+            7 => via!(volute::Lut7),
+            8 => via!(volute::Lut8),
+            9 => via!(volute::Lut9),
+            10 => via!(volute::Lut10),
+            11 => via!(volute::Lut11),
+            12 => via!(volute::Lut12),
+            _ => self.clone(),
+        }
+    }
     common_methods!();
 }
 
@@ -320,6 +345,9 @@ impl<const N: usize, const T: usize> L for StaticLut<N, T> {
     fn npn_canon_(&self) -> (Self, Vec<u8>, u32) {
         let (l, p, m) = self.npn_canonization();
         (l, p.to_vec(), m)
+    }
+    fn via_other_(&self) -> Self {
+        Self::try_from(Lut::from(*self)).unwrap()
     }
     common_methods!();
 }
